@@ -69,3 +69,62 @@ def c07():
     v.assume("names do not contain the separators :: << >>", "offsets landing outside the table are not demanded",
              "deleting the index column itself, and the private _append_row/_update, are not in this model")
     return v.finish()
+
+
+def rs_cases(mode, maxlen, pairmaxlen):
+    import json
+    cfg = _cfg("RowSel.cfg.tmpl", f"RowSel_{mode}_{maxlen}_{pairmaxlen}.cfg", MAXLEN=maxlen, PAIRMAXLEN=pairmaxlen, MODE=mode)
+    out = os.path.join(GEN, f"rs_{mode}_{os.getpid()}.out")
+    cases = []
+    try:
+        r = tlc.run("RowSel.tla", cfg, workers=8, to_file=out, timeout=3000)
+        with open(out) as fh:
+            for line in fh:
+                if line.startswith('"[\\"CASE'):
+                    v = json.loads(json.loads(line))
+                    cases.append((v[1], v[2], v[3]))
+    finally:
+        if os.path.exists(out):
+            os.remove(out)
+    return cases, r
+
+
+def c08():
+    q = get_tier() == "quick"
+    v = Verdict("C08", "model_checking", get_tier(),
+                "RowSel.tla enumerates every index column over {a,b,c} up to length MaxLen x every selector form (positions incl. -1, position lists, masks, "
+                "regex-as-name-set with ::count in {none,0,1,-1,2} and offsets {0,+1,-1}, name spans with open ends and ::count endpoints, value ranges on two "
+                "columns with open bounds, integer slices) and, for the composition law, pairs of selectors; each case is executed on a real Table in two "
+                "concretisations (list/ndarray, two regex spellings) and rows[...], rows[s1].rows[s2], rows.indices[...], rows.mask[...] are compared with Sel; "
+                "repeated under several PYTHONHASHSEED values. non-trivial = case whose result is non-empty and not the whole table")
+    scratch = build.build("pure")
+    singles, r1 = rs_cases("single", 5, 0)
+    pairs, r2 = rs_cases("pair", 0, 3 if q else 4)
+    if q:
+        rnd = __import__("random").Random(seed())
+        pairs = [c for c in pairs if rnd.random() < 0.35]
+    hs = (0, 1, 2, 3) if q else tuple(range(32))
+    stats = collections.Counter()
+    for name, cases in (("single", singles), ("pair", pairs)):
+        fails, st, samples = par.run_workers("harness.rowsel", {"cases": cases, "scratch": scratch}, 4 if q else 1, hashseeds=hs)
+        stats.update(st)
+        for s in samples[:2]:
+            v.sample(s)
+        seen = set()
+        for f in fails:
+            key = (json_key(f["table"]), json_key(f["selectors"]))
+            v.violation(f"[hashseed {f['hashseed']}] {f['summary']}",
+                        {"engine": "rowsel", "table": f["table"], "selectors": f["selectors"], "expected": f["expected"],
+                         "variant": f["variant"], "hashseed": f["hashseed"], "detail": f["detail"]})
+    v.add(stats["evaluations"])
+    v.set(states=r1.distinct + r2.distinct, transitions=r1.states + r2.states, traces_validated_against_impl=len(singles) + len(pairs),
+          distinct_nontrivial=stats["nontrivial"] // len(hs), single_cases=len(singles), pair_cases=len(pairs), hashseeds=list(hs),
+          exhaustive=not q)
+    v.assume("regular expressions are the spellings of the binding table (alternation, character class, prefix, case flip); names contain no separators",
+             "cases whose rows would land outside the table (offsets) are not demanded", "value ranges are enumerated as first selector only")
+    return v.finish()
+
+
+def json_key(x):
+    import json
+    return json.dumps(x, sort_keys=True)
